@@ -101,6 +101,7 @@ fn test(c: &Case) -> TestResult {
     let mut used_read = false;
     let mut used_fill = false;
     let mut wrote = 0usize;
+    let mut cancelled_wait = false;
 
     macro_rules! gate {
         () => {{
@@ -190,13 +191,17 @@ fn test(c: &Case) -> TestResult {
                 match done {
                     Some(Ok(())) => vensure!(req.is_writeable(), "c09-not-writeable", "op {oi}: writeable() completed but is_writeable() is false"),
                     Some(Err(e)) => vfail!("c09-read-error", "op {oi}: writeable() failed on well-formed input: {e}"),
-                    None => {}, // cancelled
+                    // cancelled: the abandoned future may have left the request in the middle of
+                    // flushing a reply, holding the output lock (second observation in DESIGN
+                    // section 6); like the connection handler scripts, this sequence does not
+                    // write through a StreamWriter afterwards
+                    None => cancelled_wait = true,
                 }
                 // (that writeable() leaves the final stream selected is how the crate implements
                 // it; the statement does not demand it, so it is not checked)
             },
             Op::Write => {
-                if req.is_writeable() {
+                if req.is_writeable() && !cancelled_wait {
                     let mut w = req.output_stream(rt(wire::T_STDOUT));
                     let data = [0x42u8, oi as u8, 0x43];
                     let r = d.run("poll_write", None, |cx| Pin::new(&mut w).poll_write(cx, &data))?.unwrap();
